@@ -474,6 +474,14 @@ fn pow_taylor(x0: f64, p: f64, integer: bool, n: usize) -> Ser {
         }
         return y;
     }
+    if integer && (0.0..=64.0).contains(&p) {
+        // polynomial: g_k = C(p,k) x0^(p-k) directly (no division by x0, safe against underflow)
+        let pi = p as usize;
+        for k in 0..n.min(pi + 1) {
+            y[k] = binom(pi, k) * x0.powi((pi - k) as i32);
+        }
+        return y;
+    }
     let y0 = if integer && p.abs() <= i32::MAX as f64 { x0.powi(p as i32) } else { x0.powf(p) };
     y[0] = y0;
     for k in 1..n {
@@ -531,9 +539,16 @@ pub fn majorant(f: Func, x0: f64, g: &Ser) -> Ser {
     let mut m: Ser = g.iter().map(|v| v.abs()).collect();
     if matches!(f, Func::SphJ0 | Func::SphJ1 | Func::SphJ2) {
         // closed forms combine sin/cos terms of size 1/|x|: accuracy is absolute at that level
+        // (the k-th Taylor coefficient of 1/x^(n+1) carries the binomial factor C(k+n, n))
+        let n = match f {
+            Func::SphJ0 => 0,
+            Func::SphJ1 => 1,
+            _ => 2,
+        };
         let lvl = 1.0 / x0.abs().max(1.0);
-        for v in m.iter_mut() {
-            *v = v.max(lvl);
+        for (k, v) in m.iter_mut().enumerate() {
+            let binom: f64 = (1..=n).map(|i| (k + i) as f64 / i as f64).product();
+            *v = v.max(lvl * binom);
         }
     }
     if let Some(rho) = radius(f, x0) {
